@@ -424,6 +424,14 @@ pub fn gen_frames(r: &mut Rng) -> MScn {
             let sig = if r.bool() { SigS::Cc(r.below(5) as u8) } else { SigS::Regs((0..r.below(4)).map(|_| r.below(6) as u8).collect()) };
             s.ops.insert(0, Op::SubDef(a, sig));
         }
+        // the host calls a subroutine itself: between steps, after an error, on the halted machine
+        if r.chance(1, 3) {
+            let a = if !targets.is_empty() { *r.pick(&targets) } else { 0x3000 + r.below(0x40) as u16 };
+            let at = if r.bool() { s.ops.len() } else { r.below(s.ops.len() as u64 + 1) as usize };
+            s.ops.insert(at, Op::CallSub(a));
+            s.ops.push(Op::Step(30));
+            s.max_ticks += 30;
+        }
         // interrupt vectors can carry signatures too (looked up for interrupt frames; arguments are D8)
         if r.chance(1, 4) {
             s.ops.insert(0, Op::SubDef(0x100 + r.below(0x100) as u16, SigS::Regs(vec![0])));
